@@ -1,7 +1,7 @@
 """C03 - enumerate-and-check stable semantics."""
 from mirlib import facts, flow, ir, symx
 from mirlib.pat import ANY, ADT, C, CLOS, F, IDX, K, OP, P, TUP, V, match
-from rules import kernel, semantics, shared
+from rules import deps, kernel, semantics, shared
 from rules.kernel import deep_strip, strip, is_call
 
 EXPLANATION = """
@@ -13,7 +13,11 @@ stability_check's indexed loop uses the same index on both sides and answers fal
 C03.F-cand (candidates are the two-valued completions of the grounded interpretation, or biodivine sat_valuations mapped
 value(var) -> TOP/BOT iterating self.vars in order); C03.A-rewrite (stable_representation and stm_rewriting build
 AND_i (ac_i <-> x_i) with x_i the variable named ordering.name(Var(i)) for the same i); C03.T-sentinel (the placeholder
-pair emitted by the pre-filter is class-unequal at position 0, hence dropped); S.X-exhaust on all candidate chains."""
+pair emitted by the pre-filter is class-unequal at position 0, hence dropped); S.X-exhaust on all candidate chains.
+Dependency suites (rules/deps.py; each obligation is a necessary condition of this property, reported under its own rule id):
+kernel-build (C07.T-conn, C07.T-ite0, C07.R-ite, S.F-memo ite_cache, S.R-node, S.R-new, S.W-store, C06.W-ctor), kernel-restrict
+(C07.R-restrict, S.F-memo restrict_cache) and translation (C09.A-wire, C09.A-term, C09.F-order, C09.A-name, C01.A-hybrid): an answer
+is computed on diagrams built by these functions, on every back-end."""
 NOT_DECIDED = "Equality with the definitional set for all ADFs; biodivine's sat_valuations/eval_expression are trusted."
 TECHNIQUE = "static analysis: finite-domain closure tables (reduct idiom), expression reconstruction with index/provenance agreement, exhaustive-consumption rule"
 
@@ -363,3 +367,4 @@ def check(ctx):
         nx = semantics.X_exhaust(ctx, lib, rule, ("TwoValuedInterpretationsIterator::new", "from_bdd", "Adf::stable_model_candidates", "::sat_valuations"),
                                  only_fns={"Adf::stable", "Adf::stable_with_prefilter", "Adf::stable_bdd_representation", "Adf::stable_model_candidates"})
         ctx.floor(rule, "stable chains", nx, 6)
+        deps.semantics_base(ctx, lib)
